@@ -35,6 +35,8 @@ func runC19(p *load.Program, r *oblig.Report) {
 	c19SplitMerge(p, r)
 	c19Seek(p, r)
 	c19Conn(p, r)
+	c19ClientErrors(p, r)
+	c19BrokerPlaceholders(p, r)
 }
 
 // ---------- provenance rendering
@@ -59,6 +61,35 @@ func flowDesc(v ssa.Value, depth int) string {
 			s = "make(" + typeShort(o.Val.Type()) + ")" + o.Path
 		case "alloc":
 			s = "local(" + typeShort(deref(o.Val.Type())) + ")" + o.Path
+			// a small local array (the argument list of a variadic call, a composite literal): name its elements,
+			// otherwise `f(x)` and `f(y)` look alike
+			if al, isAl := o.Val.(*ssa.Alloc); isAl && depth < 3 {
+				if arr, isArr := deref(al.Type()).Underlying().(*types.Array); isArr && arr.Len() > 0 && arr.Len() <= 4 {
+					elems := map[int64]string{}
+					for _, ref := range *al.Referrers() {
+						ia, isIA := ref.(*ssa.IndexAddr)
+						if !isIA {
+							continue
+						}
+						k, isK := an.ConstInt(ia.Index)
+						if !isK {
+							continue
+						}
+						for _, r2 := range *ia.Referrers() {
+							if st, isSt := r2.(*ssa.Store); isSt && st.Addr == ssa.Value(ia) {
+								elems[k] = flowDesc(st.Val, depth+1)
+							}
+						}
+					}
+					if len(elems) == int(arr.Len()) {
+						var es []string
+						for i := int64(0); i < arr.Len(); i++ {
+							es = append(es, elems[i])
+						}
+						s = "[" + strings.Join(es, ", ") + "]" + o.Path
+					}
+				}
+			}
 		case "call":
 			c, _ := o.Val.(*ssa.Call)
 			if c != nil && depth < 3 {
@@ -1084,3 +1115,87 @@ func init() {
 }
 
 var debugSeek bool
+
+// c19ClientErrors: ConsumerOffsets has no per-partition error slot in its result, so an OffsetFetch answer that
+// carries a group-level or partition-level error must fail the call: -1 with a nil error reads as "nothing committed".
+func c19ClientErrors(p *load.Program, r *oblig.Report) {
+	const rule = "C19.R6 ConsumerOffsets reports the coordinator's errors"
+	fn := p.Func("", "(*Client).ConsumerOffsets")
+	if fn == nil {
+		r.Lost(rule, "kafka.(*Client).ConsumerOffsets")
+		return
+	}
+	group, part := false, false
+	for _, b := range an.Blocks(fn) {
+		_, ci := an.IfCond(b)
+		if ci == nil || !an.IsNilConst(ci.Y) || ci.Edge(token.NEQ) < 0 {
+			continue
+		}
+		s := clean(an.Shape(ci.X))
+		if !strings.HasSuffix(s, ".Error") {
+			continue
+		}
+		// the non-nil edge leaves with an error
+		q := an.PathQuery{Fn: fn, Target: func(i ssa.Instruction) bool {
+			ret, ok := i.(*ssa.Return)
+			return ok && len(ret.Results) == 2 && an.IsNilConst(an.RetVal(ret, 1))
+		}}
+		if q.ReachableFrom(an.Point{B: b.Succs[ci.Edge(token.NEQ)], Idx: -1}) != nil {
+			continue
+		}
+		if strings.Contains(s, "[") {
+			part = true
+		} else {
+			group = true
+		}
+	}
+	r.Check(group && part, rule, "kafka.(*Client).ConsumerOffsets fails when the OffsetFetch answer carries a group-level or a partition-level error", p.Pos(fn.Pos()),
+		"if offsets.Error != nil { return nil, … }; for each partition: if off.Error != nil { return nil, … }", fmt.Sprintf("group-level error tested: %v, partition-level error tested: %v", group, part))
+}
+
+// c19BrokerPlaceholders: a broker id that the metadata names as leader or replica but that is not in the broker list
+// (an offline broker, or -1 for "no leader") is reported as a placeholder carrying that id — never as the zero Broker,
+// whose id 0 is a legal broker id. The Client and the Conn path agree (the Conn path has makeBrokers).
+func c19BrokerPlaceholders(p *load.Program, r *oblig.Report) {
+	const rule = "C19.R7 brokers missing from the broker list are reported by id"
+	n := 0
+	var bad []string
+	for _, name := range []string{"(*Client).Metadata", "(*Conn).readTopicMetadatav1", "(*Conn).readTopicMetadatav6", "makeBrokers"} {
+		fn := p.Func("", name)
+		if fn == nil {
+			r.Lost(rule, "kafka."+name)
+			continue
+		}
+		an.EachInstr(fn, func(ins ssa.Instruction) {
+			lk, ok := ins.(*ssa.Lookup)
+			if !ok {
+				return
+			}
+			mt, isMap := lk.X.Type().Underlying().(*types.Map)
+			if !isMap || !an.NamedIs(mt.Elem(), load.ModPath, "Broker") {
+				return
+			}
+			n++
+			if !lk.CommaOk {
+				bad = append(bad, "kafka."+name+" looks a broker up at "+p.Pos(lk.Pos())+" without checking that it is known")
+			}
+		})
+	}
+	sort.Strings(bad)
+	r.Check(n > 0 && len(bad) == 0, rule, "every broker lookup by id in Client.Metadata and Conn.ReadPartitions substitutes a placeholder for an unknown id", "-",
+		"br, ok := brokers[id]; if !ok { br.ID = int(id) }", strings.Join(bad, "; "))
+	// a partition's own error code is reported on that partition by the Conn path too
+	for _, name := range []string{"(*Conn).readTopicMetadatav1", "(*Conn).readTopicMetadatav6"} {
+		fn := p.Func("", name)
+		if fn == nil {
+			continue
+		}
+		okErr := false
+		an.EachInstr(fn, func(ins ssa.Instruction) {
+			if st, ok := fieldStoreIs(ins, "Partition", "Error"); ok && strings.Contains(clean(an.Shape(st.Val)), "PartitionErrorCode") {
+				okErr = true
+			}
+		})
+		r.Check(okErr, rule, "kafka."+name+" reports a partition's error code on that partition", p.Pos(fn.Pos()), "Partition{…, Error: makeError(p.PartitionErrorCode, \"\")}", "Partition.Error is never set")
+	}
+}
